@@ -28,10 +28,26 @@ def exn_code(e):
 
 
 # ---- canonical (hashable, comparable) forms ----
+_SUB = {}          # built-in class -> an (unregistered) user subclass of it
+_SUB_PARENT = {}   # that subclass -> the built-in class
+
+
+def subclass_of(cls):
+    """a user-defined subclass of a built-in grid-object class (not registered: the registry and every type index stay as they are).
+    Everything the library does with `isinstance` must treat its instances exactly like instances of the parent."""
+    if cls not in _SUB:
+        import types
+        sub = types.new_class('User' + cls.__name__, (cls,), {'register': False})
+        _SUB[cls] = sub
+        _SUB_PARENT[sub] = cls
+    return _SUB[cls]
+
+
 def cobj(o):
-    """(type_index, state_index, colour value, content or None)"""
+    """(type_index, state_index, colour value, content or None); an instance of a user subclass made by `subclass_of` counts as its parent"""
     c = getattr(o, 'content', None)
-    return (type(o).type_index(), int(o.state_index), int(o.color.value), cobj(c) if c is not None else None)
+    t = _SUB_PARENT.get(type(o), type(o))
+    return (t.type_index(), int(o.state_index), int(o.color.value), cobj(c) if c is not None else None)
 
 
 def cgrid(g):
@@ -61,9 +77,11 @@ def _ctor(ty):
 _COLORS = {c.value: c for c in Color}
 
 
-def mkobj(c):
+def mkobj(c, sub=None):
     ty, st, col, content = c
     cls, names = _ctor(ty)
+    if sub is not None and ty == sub:
+        cls = subclass_of(cls)
     if not names:
         return cls()
     kwargs = {}
@@ -73,30 +91,31 @@ def mkobj(c):
         elif pname == 'state':
             kwargs[pname] = cls.Status(st)
         else:
-            kwargs[pname] = mkobj(content)
+            kwargs[pname] = mkobj(content, sub)
     return cls(**kwargs)
 
 
-def mkgrid(cg, share=False):
+def mkgrid(cg, share=False, sub=None):
     if not share:
-        return Grid([[mkobj(c) for c in row] for row in cg])
+        return Grid([[mkobj(c, sub) for c in row] for row in cg])
     # equal objects without mutable state of their own (no status, no content) are ONE python object placed in several cells
     pool = {}
 
     def get(c):
         cls, names = _ctor(c[0])
         if 'state' in names or 'content' in names:
-            return mkobj(c)
+            return mkobj(c, sub)
         if c not in pool:
-            pool[c] = mkobj(c)
+            pool[c] = mkobj(c, sub)
         return pool[c]
     return Grid([[get(c) for c in row] for row in cg])
 
 
-def mkstate(cs, share=False):
+def mkstate(cs, share=False, sub=None):
+    """sub: a type index all of whose instances (grid, contents, hand) are made from a user subclass of that built-in type"""
     cg, (y, x), o, held = cs
-    h = mkobj(held)
-    return State(mkgrid(cg, share), Agent(Position(y, x), Orientation(o), h))
+    h = mkobj(held, sub)
+    return State(mkgrid(cg, share, sub), Agent(Position(y, x), Orientation(o), h))
 
 
 # ---- encoders (canonical form -> ints) ----
